@@ -115,6 +115,18 @@ func ownClosure(p *engine.Prog, f *ssa.Function, own map[*types.Func]*ssa.Functi
 					walk(fn)
 				}
 			}
+			// an own method handed over as a method value (once.Do(pxy.release), time.AfterFunc(d, pxy.stop))
+			for _, a := range call.Common().Args {
+				if mc, ok := a.(*ssa.MakeClosure); ok {
+					if bf, ok := mc.Fn.(*ssa.Function); ok && bf.Synthetic != "" {
+						if mo, ok := bf.Object().(*types.Func); ok {
+							if fn, ok := own[mo.Origin()]; ok {
+								walk(fn)
+							}
+						}
+					}
+				}
+			}
 		})
 	}
 	walk(f)
